@@ -329,3 +329,42 @@ NOT_APPLICABLE = {}      # every property is decided with the technique (clauses
 NOTES = ('Every check is `./check <ID> --tier quick|thorough`; the encoding is the symbolic execution of /repo\'s '
          'current working tree (nothing cached). Genuine defects found by the checks were repaired by "fix:" commits '
          'in /repo and are listed as fixed entries in /verif/known_findings.json.')
+
+# Members added after the second round of seeded changes (DESIGN 9.4); appended to the claim text of the property.
+EXTRA = {
+    'C02': 'A further obligation builds 2 / 3 / 40 (concrete smoke run: 400) nodes of a user-registered type whose flatten '
+           'yields temporary tuples: every Config below them is invoked once and lands in its own place.',
+    'C04': 'The nesting kinds also include factory-free dict / list / empty-dict siblings of a factory inside one '
+           'container (passed through uncopied) and ArgFactory objects whose configured arguments are positional only '
+           '(plain and holding a nested ArgFactory): 16 kinds in all.',
+    'C05': 'Two more exception shapes: twin classes that share one qualified name (a different one per round) and an '
+           'exception that already escaped the previous build and is raised again by a different node (the context '
+           'added by this build - the last named path - must lead to the node failing now).',
+    'C07': 'Edits on the copy include update_callable (to a callable with a different signature) on the nodes of a deep '
+           'copy, with a signature-dependent view of the original (parameters with defaults, length of the positional '
+           'view) compared before and after; the family holds a callable with annotation tags, one removed and one '
+           'replaced before copying.',
+    'C08': 'The cycle clause is also checked for traversals that run with their own registry (dataclass registry, a user '
+           'registry) on cycles passing only through node types of that registry; get_all_paths(allow_caching=False) is '
+           'checked after the traversal function has given an already visited object one more parent.',
+    'C11': 'The program family also holds closures combined with attribute-load and attribute-store handlers, a '
+           'collection-like user class (sized, iterable, container) and a list subclass.',
+    'C12': 'Tags are also placed on plain and on ArgFactory-valued arguments of the root (a Partial mixing both kinds).',
+    'C14': 'The tag-operation histories include assigning one TaggedValue object to two arguments.',
+    'C15': 'The callable set includes a classmethod that is looked up afresh at every use (equal but never identical '
+           'bound-method objects), and replace() is also called with a value equal to, but distinct from, the first '
+           'matching node (with and without deepcopy; identity clauses).',
+    'C16': 'The misc histories include an edit made by a helper thread that is joined before the next step; after every '
+           'step the sequence numbers of all entries written by it exceed everything that existed before, across both '
+           'configurations, and no number occurs twice.',
+    'C18': 'Empty containers are among the leaves, and all printed leaves are also written back one after the other into '
+           'one copy, which must equal assigning a fresh copy of each value at its site (no aliasing between textually '
+           'identical overrides).',
+    'C19': 'The translator also handles list-valued state (append / pop as one step; a class-level list is shared even '
+           'below threading.local), properties, class-based context managers, threading.get_ident and conditional '
+           'expressions; the thorough tier checks every unordered pair of the ten thread programs (with repetition) '
+           'plus the three-thread systems.',
+    'C20': 'The family also holds Partials configured through positional-only / *args arguments only.',
+}
+for _p, _t in EXTRA.items():
+  CLAIMS[_p]['text'] = CLAIMS[_p]['text'].rstrip() + ' ' + _t
